@@ -31,13 +31,18 @@ func c18(c *Ctx) {
 					ident := c.R.Pick("ident", "i")
 					name := c.R.Pick("Real Name", "x", ":colon name")
 					var addr string
+					track := c.R.Bool() // with state tracking on, the client's own record lives in the tracker: it must survive a reconnect too
 					sess, err := newSession(func(cfg *client.Config) {
 						cfg.Server = server
 						cfg.SSL = ssl
 						cfg.Pass = pass
 						cfg.EnableCapabilityNegotiation = capNeg
 						cfg.Me.Nick, cfg.Me.Ident, cfg.Me.Name = nick, ident, name
-					}, nil)
+					}, func(cn *client.Conn) {
+						if track {
+							cn.EnableStateTracking()
+						}
+					})
 					b := func(x bool) string {
 						if x {
 							return "1"
@@ -119,12 +124,17 @@ func c18(c *Ctx) {
 					// the link drops, the application keeps calling command methods while it is down, then reconnects the same
 					// client: the new connection starts with the registration lines, once each, and nothing else before them
 					if (n/2)%2 == 0 {
+						if welcomed := c.R.P(2, 3); welcomed && nick != "" && !strings.ContainsAny(nick, " :") {
+							// the usual case: the session had been welcomed before the link dropped
+							sess.srv.SendLine(":irc.test 001 " + nick + " :Welcome to the network " + nick + "!" + ident + "@host.example")
+							sess.sync(5 * time.Second)
+						}
 						sess.srv.EOF()
 						waitFor(func() bool { return !sess.conn.Connected() }, 5*time.Second)
 						time.Sleep(time.Millisecond)
 						sess.conn.Nick("elsewhere")
 						sess.conn.Privmsg("#c", "queued while the link was down")
-						rdesc := desc + ", link dropped, Nick() and Privmsg() called while down, Connect again"
+						rdesc := desc + fmt.Sprintf(", tracking=%v, link dropped, Nick() and Privmsg() called while down, Connect again", track)
 						if err := sess.conn.Connect(); err != nil {
 							c.SpecFail("spec", rdesc, "", "reconnect failed: "+err.Error(), rp)
 							continue
